@@ -96,6 +96,18 @@ CLAIMED = {
                 "(cannot be judged), never as a violation; a dropped/changed term, coefficient, sign or argument order is a violation.",
         "technique": "expression normalisation to canonical polynomial forms + structural guard rules (no paths, no solver)",
     },
+    "C14": {
+        "category": "other",
+        "text": "Structural clauses of 'equivalent specifications give identical results': every absolute <-> relative and covariance <-> correlation conversion of the "
+                "parameter constraints and of the matrix / simple Gaussian error sources is normalised to a canonical polynomial form and compared with the documented "
+                "formula per guarded branch; each conversion pair composes to the identity in exact rational arithmetic; all relative <-> absolute conversions of simple "
+                "errors use the magnitude of the reference while the covariance uses the signed product (so that it equals the explicit (sigma sigma^T) o rho matrix); "
+                "every add_error implementation broadcasts a scalar to the constant vector of the data size; every wrapper keyword *_error[_cor][_rel] is forwarded with "
+                "exactly the axis / correlated / relative flags its name states; the percent shorthand becomes percent/100 relative, plain entries absolute.",
+        "note": "Decides the conversion formulas and the keyword/flag wiring, not the floating-point identity of the resulting fits (rounding differences between e.g. "
+                "x*r/r and x are outside the rule). Unknown vocabulary in a changed formula is reported as analysis error, never as a violation.",
+        "technique": "expression normalisation to canonical forms per guarded branch + call-site keyword tables",
+    },
     "C16": {
         "category": "proof",
         "text": "Closed set of rewriting identities decided on expressions extracted from kafe2/core/confidence.py: the canonical forms of the two conversions "
